@@ -149,3 +149,15 @@ Proof.
     exfalso. exact (quirk_departs o d E Hc H).
   - intro H. apply apply_op_rfc. unfold quirk_step. rewrite H. reflexivity.
 Qed.
+
+(* the remaining corner, as an exact side condition: a copy with from = path that resolves gives the
+   RFC result exactly when the RFC's add of the value onto itself leaves the document as it is *)
+Lemma copy_identity_exact : forall from to v src,
+  toks_eqb from to = true -> rfc_get v from = Some src ->
+  (apply_op (PCopy (Some from) (Some to)) (Some v) = rfc_op (PCopy (Some from) (Some to)) (Some v)
+   <-> rfc_add v to src = Some v).
+Proof.
+  intros from to v src He Hg. cbn [apply_op rfc_op]. rewrite He, Hg.
+  destruct (rfc_add v to src) as [r|]; cbn [option_map]; split; intro H;
+    try discriminate; try (inversion H; subst; reflexivity).
+Qed.
